@@ -5,6 +5,7 @@ from props.c01 import run_cells_op
 TRUSTED = [
     "Lean 4.33 kernel; axioms propext, Classical.choice, Quot.sound only (audited per theorem)",
     "executable models MVoro/Model/{Cycle,Clip}.lean; theorems MVoro/Proofs/CycleBoundary.lean (array cycle refines the abstract successor function; a successful greedy reconstruction ends with the boundary of the removed set, for every storage order and rotation; closedness preserved)",
+    "translator fragments Cycle (every method of SimpleCycle) and Boundary (compute_boundary with its loops), tools/extract3.py: obligations Gen = Model (MVoro/Obl/Cycle.lean, MVoro/Obl/Boundary.lean)",
     "NOT proved (trusted-base item 3 of DESIGN §4): the greedy search never gets stuck on a triangulated disc (extendable shellability); everything is proved given that it does not get stuck, and `stuck` is observable (panic / STUCK) on both sides",
     "correspondence harness: ops clipperm (real clip_by_plane on permuted/rotated vertex arrays of reachable cells) and cycle (random op sequences on the real SimpleCycle)",
 ]
@@ -27,7 +28,10 @@ def run(chk):
                 "vertices (<= 5 quick / <= 7 thorough) with random placement among the kept ones and random rotations of every dual triple, sampled above; results as sorted rotation-normalised triples must be "
                 "equal across permutations, equal to Model/Clip, closed surfaces, volumes equal within 1e-9 of the box; op cycle: random op sequences on SimpleCycle vs the array model; "
                 "non-trivial = scenario with >= 2 removed vertices; distinct by (scenario, permutation)")
-    chk.lean(['MVoro.Props.C18', 'MVoro.Proofs.CycleBoundary'], ['MVoro.Obl.ClipVertex'], ['ClipVertex'])
+    chk.lean(['MVoro.Props.C18', 'MVoro.Proofs.CycleBoundary'], ['MVoro.Obl.ClipVertex'], ['ClipVertex'],
+             optional=[('Cycle', 'MVoro.Obl.Cycle', []), ('Boundary', 'MVoro.Obl.Boundary', ['Cycle'])])
+    if chk.escalate:
+        chk.tier = 'thorough'
     got = run_cells_op(chk, op='clipperm')
     if got is None:
         return
